@@ -19,18 +19,87 @@ type AbsEval struct {
 	// Branch, when set, turns a break/continue into an outcome (values returned
 	// by Run); without it such statements cannot be evaluated.
 	Branch func(b *ast.BranchStmt) ([]any, bool)
-	vars   map[*types.Var]any
+	// Cell, when set, names the non-local storage locations (fields) whose value
+	// is followed through assignments: it returns a key for such an lvalue.
+	Cell func(e ast.Expr) (string, bool)
+	// SkipLoop, when set and true for a nested loop, lets the evaluation continue
+	// past it: everything the loop assigns (locals, cells) becomes unknown.
+	SkipLoop func(s ast.Stmt) bool
+	// Effect, when set, is told of every call made as a statement (a write to a
+	// buffer, say); false stops the evaluation as undecidable.
+	Effect func(call *ast.CallExpr) bool
+	vars     map[*types.Var]any
+	cells    map[string]any
 
-	preset map[*types.Var]any
+	preset     map[*types.Var]any
+	presetCell map[string]any
+}
+
+// SetCell gives a followed storage location its initial value.
+func (a *AbsEval) SetCell(key string, val any) {
+	if a.presetCell == nil {
+		a.presetCell = map[string]any{}
+	}
+	a.presetCell[key] = val
+}
+
+// CellValue is the value of a followed location after Run / RunList (nil: unknown).
+func (a *AbsEval) CellValue(key string) any { return a.cells[key] }
+
+// VarValue is the value of a local after Run / RunList (nil: unknown).
+func (a *AbsEval) VarValue(v *types.Var) any { return a.vars[v] }
+
+func (a *AbsEval) reset() {
+	a.vars = map[*types.Var]any{}
+	for k, v := range a.preset {
+		a.vars[k] = v
+	}
+	a.cells = map[string]any{}
+	for k, v := range a.presetCell {
+		a.cells[k] = v
+	}
+}
+
+// havoc forgets everything assigned below n.
+func (a *AbsEval) havoc(n ast.Node) {
+	ast.Inspect(n, func(m ast.Node) bool {
+		var lhs []ast.Expr
+		switch x := m.(type) {
+		case *ast.AssignStmt:
+			lhs = x.Lhs
+		case *ast.IncDecStmt:
+			lhs = []ast.Expr{x.X}
+		case *ast.RangeStmt:
+			lhs = []ast.Expr{x.Key, x.Value}
+		}
+		for _, l := range lhs {
+			if l == nil {
+				continue
+			}
+			if id, ok := ast.Unparen(l).(*ast.Ident); ok {
+				v, _ := a.Info.Defs[id].(*types.Var)
+				if v == nil {
+					v, _ = a.Info.Uses[id].(*types.Var)
+				}
+				if v != nil {
+					a.vars[v] = nil
+				}
+				continue
+			}
+			if a.Cell != nil {
+				if k, ok := a.Cell(l); ok {
+					a.cells[k] = nil
+				}
+			}
+		}
+		return true
+	})
 }
 
 // RunList executes a statement list (e.g. a loop body for one element); the
 // second result tells whether an outcome (return or Branch) was reached.
 func (a *AbsEval) RunList(list []ast.Stmt) ([]any, bool, bool) {
-	a.vars = map[*types.Var]any{}
-	for k, v := range a.preset {
-		a.vars[k] = v
-	}
+	a.reset()
 	return a.exec(list)
 }
 
@@ -44,10 +113,7 @@ func (a *AbsEval) Set(v *types.Var, val any) {
 
 // Run executes the body and returns the values of the first return reached.
 func (a *AbsEval) Run(body *ast.BlockStmt) ([]any, bool) {
-	a.vars = map[*types.Var]any{}
-	for k, v := range a.preset {
-		a.vars[k] = v
-	}
+	a.reset()
 	ret, returned, ok := a.exec(body.List)
 	return ret, ok && returned
 }
@@ -144,10 +210,41 @@ func (a *AbsEval) exec(list []ast.Stmt) ([]any, bool, bool) {
 				}
 			}
 		case *ast.AssignStmt:
+			if x.Tok != token.ASSIGN && x.Tok != token.DEFINE {
+				// v op= e on a local
+				if id, ok := ast.Unparen(x.Lhs[0]).(*ast.Ident); ok && len(x.Lhs) == 1 && len(x.Rhs) == 1 {
+					if v, ok := a.Info.Uses[id].(*types.Var); ok {
+						op := map[token.Token]token.Token{token.ADD_ASSIGN: token.ADD, token.SUB_ASSIGN: token.SUB, token.MUL_ASSIGN: token.MUL}[x.Tok]
+						l, isL := a.vars[v].(int64)
+						r, okR := a.Eval(x.Rhs[0])
+						rn, isR := r.(int64)
+						switch {
+						case !isL || !okR || !isR || op == token.ILLEGAL:
+							a.vars[v] = nil
+						case op == token.ADD:
+							a.vars[v] = l + rn
+						case op == token.SUB:
+							a.vars[v] = l - rn
+						default:
+							a.vars[v] = l * rn
+						}
+					}
+				}
+				continue
+			}
 			if len(x.Lhs) == len(x.Rhs) {
 				for i, l := range x.Lhs {
 					id, isID := ast.Unparen(l).(*ast.Ident)
 					if !isID {
+						if a.Cell != nil {
+							if k, ok := a.Cell(l); ok {
+								if val, ok := a.Eval(x.Rhs[i]); ok {
+									a.cells[k] = val
+								} else {
+									a.cells[k] = nil
+								}
+							}
+						}
 						continue
 					}
 					v, _ := a.Info.Defs[id].(*types.Var)
@@ -165,7 +262,27 @@ func (a *AbsEval) exec(list []ast.Stmt) ([]any, bool, bool) {
 					}
 				}
 			}
-		case *ast.DeclStmt, *ast.ExprStmt, *ast.EmptyStmt, *ast.IncDecStmt:
+		case *ast.ExprStmt:
+			if call, ok := ast.Unparen(x.X).(*ast.CallExpr); ok && a.Effect != nil {
+				if !a.Effect(call) {
+					return nil, false, false
+				}
+			}
+		case *ast.IncDecStmt:
+			if id, ok := ast.Unparen(x.X).(*ast.Ident); ok {
+				if v, ok := a.Info.Uses[id].(*types.Var); ok {
+					if n, isN := a.vars[v].(int64); isN {
+						if x.Tok == token.INC {
+							a.vars[v] = n + 1
+						} else {
+							a.vars[v] = n - 1
+						}
+					} else {
+						a.vars[v] = nil
+					}
+				}
+			}
+		case *ast.DeclStmt, *ast.EmptyStmt:
 		case *ast.BranchStmt:
 			if a.Branch != nil {
 				if v, ok := a.Branch(x); ok {
@@ -173,7 +290,13 @@ func (a *AbsEval) exec(list []ast.Stmt) ([]any, bool, bool) {
 				}
 			}
 			return nil, false, false
-		case *ast.ForStmt, *ast.RangeStmt, *ast.TypeSwitchStmt, *ast.SelectStmt, *ast.GoStmt, *ast.DeferStmt:
+		case *ast.ForStmt, *ast.RangeStmt:
+			if a.SkipLoop != nil && a.SkipLoop(x) {
+				a.havoc(x)
+				continue
+			}
+			return nil, false, false
+		case *ast.TypeSwitchStmt, *ast.SelectStmt, *ast.GoStmt, *ast.DeferStmt:
 			return nil, false, false
 		}
 	}
@@ -208,6 +331,16 @@ func (a *AbsEval) Eval(e ast.Expr) (any, bool) {
 			return constant.BoolVal(tv.Value), true
 		case constant.String:
 			return constant.StringVal(tv.Value), true
+		}
+	}
+	if a.Cell != nil {
+		if _, isSel := e.(*ast.SelectorExpr); isSel {
+			if k, ok := a.Cell(e); ok {
+				if val, has := a.cells[k]; has && val != nil {
+					return val, true
+				}
+				return nil, false
+			}
 		}
 	}
 	if a.Atom != nil {
@@ -290,6 +423,35 @@ func (a *AbsEval) Eval(e ast.Expr) (any, bool) {
 			return ln - rn, true
 		case token.MUL:
 			return ln * rn, true
+		case token.SHR:
+			if rn >= 0 && rn < 63 {
+				return ln >> uint(rn), true
+			}
+		case token.SHL:
+			if rn >= 0 && rn < 32 {
+				return ln << uint(rn), true
+			}
+		case token.AND:
+			return ln & rn, true
+		case token.OR:
+			return ln | rn, true
+		case token.REM:
+			if rn != 0 {
+				return ln % rn, true
+			}
+		case token.QUO:
+			if rn != 0 {
+				return ln / rn, true
+			}
+		}
+	case *ast.IndexExpr:
+		// a character of a known string
+		sv, ok1 := a.Eval(x.X)
+		iv, ok2 := a.Eval(x.Index)
+		str, isS := sv.(string)
+		idx, isN := iv.(int64)
+		if ok1 && ok2 && isS && isN && idx >= 0 && int(idx) < len(str) {
+			return int64(str[idx]), true
 		}
 	case *ast.CallExpr:
 		// conversion of an evaluable value
